@@ -1,6 +1,7 @@
 package c11
 
 import (
+	"bytes"
 	"fmt"
 	"testing"
 
@@ -122,6 +123,15 @@ func checkPB(c *pbt.Ctx, cs PCase) {
 	}
 	if !proto.Equal(got, want) {
 		c.Failf("wrong-projection", "proto MarshalTo output is not the projection\n got  %v\n want %v\n out %x", got, want, out)
+	}
+	keep := append([]byte(nil), out...)
+	c.Step("a second proto MarshalTo on another message; the first result must not change")
+	c.Protect("", func() {
+		ob := pmodel.Marshal(pmodel.Zap(src).Interface())
+		_, _ = generic.NewRootValue(from, append(make([]byte, 0, len(ob)+16), ob...)).MarshalTo(to, &generic.Options{})
+	})
+	if !bytes.Equal(out, keep) {
+		c.Failf("result-overwritten", "the bytes returned by proto MarshalTo (%d) changed during a later call", len(out))
 	}
 	mp := maxPayload(src)
 	if mp >= 100 {
